@@ -239,13 +239,18 @@ def puml_names(sp):
         victims = [v for v in plain if v != n and pn[v] == v]
         if not victims:
             continue
-        v = victims[k % len(victims)]
+        taken = set(pn.values())
         if st['kind'] == 'terminate':
-            pn[n] = 'Q' + v
-            k += 1
+            names = ['Q' + v for v in victims[k % len(victims):] + victims[:k % len(victims)]]
         elif st.get('flags') and k % 2 == 0:
-            pn[n] = v + 'x'
+            names = [v + 'x' for v in victims[k % len(victims):] + victims[:k % len(victims)]]
+        else:
+            continue
+        names = [x for x in names if x not in taken]
+        if names:
+            pn[n] = names[0]
             k += 1
+    assert len(set(pn.values())) == len(pn)
     return pn
 
 
